@@ -200,7 +200,7 @@ func vfAttackScenarios() []vfScenario {
 	add := func(name string, cfg vfCfg, tops []string, specs []vfFileSpec) {
 		cfg.Timeout = 2
 		cfg.Bufsize = 8192
-		sc = append(sc, vfScenario{name, cfg, tops, specs})
+		sc = append(sc, vfScenario{Name: name, Cfg: cfg, Tops: tops, Specs: specs})
 	}
 	add("down-p4", vfCfg{Dir: "down"}, []string{"first.bin", "second.bin"}, files)
 	add("up-p4-bin", vfCfg{Dir: "up", Binary: true, Escape: true}, []string{"first.bin", "second.bin"}, files)
